@@ -67,7 +67,7 @@ fn h1(method: &str, target: &str, nonce: u64, steps: u32, step_ms: u64, body: Op
 pub fn gen_req(r: &mut Rng, nonce: u64, versioned: bool) -> ErrReq {
     let steps = r.range(0, 1) as u32;
     let step_ms = *r.pick(&[0u64, 1, 7, 30]);
-    match r.below(14) {
+    match r.below(16) {
         0..=6 => {
             // scripted error
             let custom = r.chance(1, 5);
@@ -123,6 +123,39 @@ pub fn gen_req(r: &mut Rng, nonce: u64, versioned: bool) -> ErrReq {
             h2: None,
             plan: ReqPlan { nonce, head_method: false, expect: Expect::Ok { op: "ok".into() } },
         },
+        14 | 15 => {
+            // errors the framework itself raises while extracting typed
+            // parameters: one malformation from the C10 catalogue
+            use super::echo_gen::{gen_form, gen_narrow, gen_page, gen_typed};
+            let mut e = match r.below(4) {
+                0 => gen_form(r, nonce, 0, 0),
+                1 => gen_narrow(r, nonce, 0, 0),
+                2 => gen_page(r, nonce, 0, 0),
+                _ => gen_typed(r, nonce, 0, 0),
+            };
+            // the trait-declared twins are not part of the Err API
+            if e.path_segs[0] == "tt" {
+                e.path_segs[0] = "t".into();
+            }
+            if e.path_segs[0] == "tform" {
+                e.path_segs[0] = "form".into();
+            }
+            if versioned {
+                e.headers.push(("x-api-version".into(), b"1.0.0".to_vec()));
+            }
+            match super::c10::malform(r, &mut e) {
+                Some(_) => ErrReq {
+                    bytes: e.h1_bytes(),
+                    h2: None,
+                    plan: ReqPlan { nonce, head_method: false, expect: Expect::FrameworkErr { lo: 400, hi: 499, allow: vec![] } },
+                },
+                None => ErrReq {
+                    bytes: h1("GET", "/ok", nonce, steps, step_ms, None, versioned),
+                    h2: None,
+                    plan: ReqPlan { nonce, head_method: false, expect: Expect::Ok { op: "ok".into() } },
+                },
+            }
+        }
         12 | 13 => {
             // the other success types: 201, 202, 204, redirects, free-form
             let (m, t, op): (&str, &str, &str) = *r.pick(&[
@@ -261,8 +294,11 @@ pub fn gen_random(seed: u64, idx: u64, tier: Tier) -> Plan {
             // On a versioned server, occasionally omit the version header:
             // the framework itself must refuse with a 400.
             if versioned && r.chance(1, 8) {
-                let s = String::from_utf8_lossy(&e.bytes).replace("x-api-version: 1.0.0\r\n", "");
-                e.bytes = s.into_bytes();
+                // (byte-wise: request bytes need not be text)
+                let needle = b"x-api-version: 1.0.0\r\n";
+                if let Some(at) = e.bytes.windows(needle.len()).position(|w| w == needle) {
+                    e.bytes.drain(at..at + needle.len());
+                }
                 e.plan.expect = Expect::FrameworkErr { lo: 400, hi: 400, allow: vec![] };
             }
             c.steps.push(Step::Send { data: Blob(e.bytes), completes: Some(j) });
